@@ -13,7 +13,7 @@ func init() {
 		ID:    "C12",
 		Title: "Replicated writes are acknowledged only at quorum; reads survive replica loss",
 		Explanation: "Decided (structural necessary conditions, all in pkg/blobserver/replica, anchors resolved by role: the package's blobserver.Storage implementer and the constructor registered with RegisterStorageConstructor): " +
-			"Q-ack — in ReceiveBlob (i) one uploader is started exactly once per element of the write-replica slice with that element as destination; (ii) every uploader path sends exactly one message and the message carries the error and SizedRef of that replica's receive call; (iii) the replica receives the request's blobref and a reader created per uploader over the buffer that a successful slurp of src filled before the fan-out; (iv) the collector receives once per write replica; (v) every return with a nil error is dominated by a comparison counter==/>= sto.minWritesForSuccess (== only on the freshly incremented value); (vi) the counter is a loop-carried value starting at 0 that is only ever incremented by 1, in blocks where the current message's error is known nil and its reported size is known equal to the slurped size; (vii) the error of every other return is, on each loop arm, either known non-nil or left unchanged by an arm that counted a success. " +
+			"Q-ack — in ReceiveBlob (i) one uploader is started exactly once per element of the write-replica slice with that element as destination; (ii) every uploader path sends exactly one message and the message carries the error and SizedRef of that replica's receive call; (iii) the replica receives the request's blobref and a reader created per uploader over the buffer that a successful slurp of src filled before the fan-out; (iv) the collector receives once per write replica; (v) every return with a nil error is dominated by a comparison counter==/>= sto.minWritesForSuccess (== only on the freshly incremented value); (vi) the counter is a loop-carried value starting at 0 that is only ever incremented by 1, in blocks where the current message's error is known nil and its reported size is known equal to the slurped size; (vii) the error of every other return is, on each loop arm, either known non-nil or left unchanged by an arm that counted a success; (viii) the acknowledged SizedRef is the counted replica's answer or is built from the slurped size. " +
 			"Q-read — Fetch and OpenWholeRef iterate over every element of the read-replica slice from index 0 in steps of 1, skip an element only on a failed type assertion, leave the loop early only where the current replica's error is known nil and then return that replica's reader; StatBlobs asks every read replica for all requested blobs, and the caller's fn is invoked only under one function-wide mutex, behind a positive membership test need[sb.Ref] on one function-wide map that was filled with every requested ref before the fan-out, with delete(need, sb.Ref) on the same path under the same lock; EnumerateBlobs delegates to MergedEnumerateStorage over the read-replica slice with its own ctx/dest/after/limit. " +
 			"Q-remove — RemoveBlobs asks every write replica once, every worker reports exactly once, the collector receives once per replica, nil is returned only behind counter>0 where the counter counts only nil results, and the other return's error is set by every failing arm. " +
 			"Q-config — the registered constructor takes the quorum from config key minWritesForSuccess with default len(backends), maps a configured 0 to len(backends), rejects an empty backends list, defaults readBackends to backends before resolving them, fills the write (read) replica slice with exactly one storage per backends (readBackends) entry before any success return; every other constructor sets the quorum to the number of write replicas; no function writes a replicaStorage field of an object it did not allocate. " +
@@ -1086,8 +1086,9 @@ func sameOriginStrict(a, b ssa.Value) bool {
 }
 
 // c12Collector checks the guard / counter / fall-through triple.
-//   threshold: recognises the threshold side of the guard and says which
-//   relations `counter REL threshold` are acceptable.
+//
+//	threshold: recognises the threshold side of the guard and says which
+//	relations `counter REL threshold` are acceptable.
 func (cx *c12Ctx) c12Collector(rule string, fan *c12Fan, guardName string,
 	isThreshold func(ssa.Value) bool, relOK func(rel token.Token, thr ssa.Value, fresh bool) (bool, string),
 	extraIncFact func(facts []CondFact) (bool, string)) {
@@ -1812,7 +1813,7 @@ func c12ConfigCall(fn *ssa.Function, method, key string) *ssa.Call {
 func c12QConfig(cx *c12Ctx) {
 	const rule = "Q-config"
 	p, r := cx.p, cx.r
-	r.Floor(rule, 8)
+	r.Floor(rule, 16)
 	fn := cx.ctor
 	key := FuncKey(fn)
 	pos := p.Pos(fn.Pos())
